@@ -301,5 +301,6 @@ def run(ctx):
     _run_rules(ctx)
     from .. import boundaries
     boundaries.check(ctx, 'C07.RB', 'C07')
+    boundaries.check_amounts(ctx, 'C07.RA', 'C07')
     boundaries.check_writes(ctx, 'C07.RW', 'C07')
     boundaries.check_calls(ctx, 'C07.RC', 'C07')
